@@ -145,7 +145,7 @@ class CategoricalDiscretizer(BaseDiscretizer):
             values_to_group += [value for value in order if value not in frequencies[feature]]
 
             # grouping values to str_default if any
-            if any(values_to_group):
+            if len(values_to_group) > 0:
                 # adding default value to the order
                 order.append(self.str_default)
 
